@@ -161,5 +161,48 @@ func init() {
 	}})
 	stepDelete := step("Delete", B{"segs": 2, "recs": 2, "vers": 2, "profs": 1, "paramsets": 1, "rmindex": 2, "deletes": 2}, stepT, delReach...)
 	stepDelMulti := step("DeleteMulti", B{"segs": 2, "recs": 2, "vers": 2, "profs": 1, "paramsets": 2, "rmindex": 2}, stepT, "deletemulti", "everything-deleted")
+	// C14: damaged records
+	dmgB := B{"recs": 2, "profs": 1, "alloc_cap": 96, "conc_cap": 128, "max_alloc": 67108900}
+	dmgT := B{"recs": 3, "profs": 2, "alloc_cap": 160, "conc_cap": 192, "max_alloc": 67108900}
+	regionN := func(b map[string]int) int { return 8 * b["recs"] }
+	readOver := HarnessRun{Name: "h_damage.ReadOverwritten", Quick: dmgB, Thorough: dmgT,
+		Split: []SplitDim{{"n", same("recs")}, {"prof", same("profs")}, {"region", regionN}, {"kind", two}, {"mem", two}},
+		Reach: []string{"one-byte-overwrite", "eight-byte-overwrite", "zero-filled-tail"}}
+	readTrunc := HarnessRun{Name: "h_damage.ReadTruncated", Quick: dmgB, Thorough: dmgT,
+		Split: []SplitDim{{"n", same("recs")}, {"prof", same("profs")}, {"mem", two}}, Reach: []string{"truncated"}}
+	dirOver := HarnessRun{Name: "h_damage.DirOverwritten", Quick: B{"segs": 2, "recs": 1, "profs": 1, "alloc_cap": 96, "conc_cap": 128, "max_alloc": 67108900},
+		Thorough: B{"segs": 2, "recs": 2, "profs": 1, "alloc_cap": 128, "conc_cap": 160, "max_alloc": 67108900},
+		Split: []SplitDim{{"layout", numLayouts}, {"dseg", same("segs")}, {"region", regionN}, {"kind", two}}, Reach: []string{"dir-damaged"}}
+	addProp(&Prop{ID: "C14", DesignRef: "DESIGN.md §4 C14", Runs: []HarnessRun{readOver, readTrunc, dirOver},
+		Assumptions: []string{"CRC32C is an uninterpreted function; a record whose bytes changed is assumed not to verify by an accidental checksum collision (probability 2^-32 per damaged record); what is decided is that every byte that can influence a returned field or the framing is covered by the checksum or compared explicitly and that no path returns data without those checks",
+			"allocation bound: every make() with a symbolic size is asserted to stay <= 64 MiB + 36 bytes",
+			"ReadAt follows its documented contract"}})
+	// C15 / C16: helpers on the real log
+	helpQ := B{"segs": 2, "recs": 2, "vers": 2, "profs": 1}
+	helpT := B{"segs": 3, "recs": 2, "vers": 3, "profs": 2}
+	help := func(name string, q, t B, reach ...string) HarnessRun {
+		return HarnessRun{Name: "h_helpers." + name, Quick: q, Thorough: t, Split: layoutSplit, Reach: reach}
+	}
+	addProp(&Prop{ID: "C15", DesignRef: "DESIGN.md §4 C15", Runs: []HarnessRun{
+		help("TrimOffset", helpQ, helpT, "newest", "oldest-or-negative", "inside"),
+		help("TrimCount", helpQ, helpT, "over", "under"),
+		help("TrimSize", B{"segs": 2, "recs": 2, "vers": 1, "profs": 1}, B{"segs": 3, "recs": 2, "vers": 1, "profs": 2}, "over", "under"),
+		help("TrimAge", helpQ, helpT, "monotone", "inside"),
+	}, Assumptions: []string{"times at 1 microsecond granularity", "the fixed batch size 32 of the helpers is larger than the logs explored: batch boundaries occur at segment ends only"}})
+	cmpQ := B{"segs": 2, "recs": 2, "vers": 1, "profs": 2, "prof_base": 3}
+	cmpT := B{"segs": 3, "recs": 2, "vers": 2, "profs": 2, "prof_base": 3}
+	addProp(&Prop{ID: "C16", DesignRef: "DESIGN.md §4 C16", Runs: []HarnessRun{
+		help("Updates", cmpQ, cmpT, "update-found"),
+		help("Deletes", cmpQ, cmpT, "delete-found"),
+	}, Assumptions: []string{"keys of length 1 (symbolic byte, so repeats are chosen by the solver), values of length 1 or absent"}})
+	// C19 / C20
+	addProp(&Prop{ID: "C19", DesignRef: "DESIGN.md §4 C19", Runs: []HarnessRun{
+		{Name: "h_locks.LockMatrix", Quick: B{"steps": 3}, Thorough: B{"steps": 4}, Reach: []string{"rw-refused", "ro-refused", "second-reader", "closed", "failed-open", "matrix-done"}},
+		{Name: "h_locks.ReadonlySession", Quick: dirQ, Thorough: dirT, Split: layoutSplit, Reach: []string{"readonly-session", "without-index-files"}},
+	}, Assumptions: []string{"flock(2) semantics as modelled: per open file description, exclusive excludes all, shared excludes exclusive"}})
+	addProp(&Prop{ID: "C20", DesignRef: "DESIGN.md §4 C20", Runs: []HarnessRun{
+		{Name: "h_backup.Backup", Quick: B{"segs": 2, "recs": 2, "vers": 2, "profs": 1, "rounds": 1}, Thorough: B{"segs": 3, "recs": 2, "vers": 3, "profs": 2, "rounds": 2}, Split: layoutSplit,
+			Reach: []string{"log-backup", "dir-backup", "repeated-backup"}},
+	}, Assumptions: []string{"file modification times are arbitrary non-decreasing clock values (two writes may get the same mtime); Chtimes sets them exactly"}})
 	addProp(&Prop{ID: "C12", DesignRef: "DESIGN.md §4 C12", Runs: []HarnessRun{minOff, stepDelete, stepDelMulti}})
 }
